@@ -27,6 +27,12 @@ ct_methods = [
             outcome()
         }
 ''',
+'''        #[sv::msg(reply, handlers=[pl], reply_on=success)]
+        pub fn pl_ok(&self, mut ctx: ReplyCtx, #[sv::payload(raw)] p: Binary) -> Result<Response, OrdErr> {
+            rec_mut(13, [ctx.gas_used, p.len() as u64, 0, 0], &mut ctx.deps, &ctx.env, None);
+            outcome()
+        }
+''',
 '''        #[sv::msg(query)]
         pub fn g1(&self, ctx: QueryCtx) -> Result<Digit, OrdErr> {
             rec_ro(4, [0; 4], &ctx.deps, &ctx.env);
@@ -79,6 +85,12 @@ ct_methods = [
             outcome()
         }
 ''',
+'''        #[sv::msg(reply, handlers=[pl], reply_on=error)]
+        pub fn pl_err(&self, mut ctx: ReplyCtx, error: String, #[sv::payload(raw)] p: Binary) -> Result<Response, OrdErr> {
+            rec_mut(14, [ctx.gas_used, p.len() as u64, 200 + error.len() as u64, 0], &mut ctx.deps, &ctx.env, None);
+            outcome()
+        }
+''',
 '''        #[sv::msg(reply, reply_on=success)]
         pub fn solo(&self, mut ctx: ReplyCtx, #[sv::payload(raw)] p: Binary) -> Result<Response, OrdErr> {
             rec_mut(12, [ctx.gas_used, p.len() as u64, 0, 0], &mut ctx.deps, &ctx.env, None);
@@ -113,6 +125,8 @@ HEAD = '''// Corpus item `order`: the SAME program in several declaration orders
 // twins, so "same input => same handler, same arguments, same outcome" is directly comparable:
 //   1 instantiate(a,b)  2 e1(a,b)  3 e2(a,b)  5 e3(x)  4 g1()  8 g2(a,b)  6 s1(n)  9 s2(n)  11 migrate(a,b)
 //   7 both_ok (reply `both`, success, data raw+opt)  10 both_err (reply `both`, error)  12 solo (success)
+//   13 pl_ok (reply `pl`, success, NO data parameter, raw payload)  14 pl_err (reply `pl`, error): in `rev` the error
+//      method comes first
 //   ifo: 21 x1(a,b)  23 x2(a,b)  22 q1()  24 z1(n)        ifp: 31 p1(n)
 // `ovr_*`: a second contract whose two #[sv::override_entry_point] attributes are permuted.
 
